@@ -196,17 +196,25 @@ class CalendarRule(PluginResultIterator):
             if is_datetime(until):
                 until = parse_datetimespec(until)
             else:
-                until = datetime.combine(parse_date(until), self.start_date.time())
+                until = datetime.combine(
+                    parse_date(until),
+                    self.start_date.time(),
+                    tzinfo=self.start_date.tzinfo,
+                )
 
         elif isinstance(until, date):
-            until = datetime.combine(until, self.start_date.time(), tzinfo=timezone.utc)
+            until = datetime.combine(
+                until, self.start_date.time(), tzinfo=self.start_date.tzinfo
+            )
 
         else:
             raise exc.DataGenTypeError(
                 f"`until` parameter ({until}) is of unexpected type {until}"
             )
 
-        return until.replace(tzinfo=timezone.utc)
+        if not until.tzinfo:
+            until = until.replace(tzinfo=timezone.utc)
+        return until
 
     def _set_output_datetype_date_or_datetime(self, precision: type) -> None:
         """Depending on the precision requested, generate the right kinds of records"""
